@@ -124,10 +124,13 @@ func (a *AggregationProcess) Start() {
 
 func (a *AggregationProcess) Stop() {
 	a.mutex.Lock()
-	for _, worker := range a.workerList {
+	workerList := a.workerList
+	a.mutex.Unlock()
+	// Do not hold the mutex while stopping the workers: stop() blocks until the worker
+	// is done with its current message, and processing a message requires the mutex.
+	for _, worker := range workerList {
 		worker.stop()
 	}
-	a.mutex.Unlock()
 	a.stopChan <- true
 }
 
